@@ -93,8 +93,10 @@ const (
 	_listFixedUntypedLenTagMax = byte(0x7f)
 	_listFixedUntypedLenMax    = _listFixedUntypedLenTagMax - _listFixedUntypedLenTagMin
 
-	// a length declared by the input is trusted for allocation only up to this many elements at a time
-	_listAllocChunk = 4096
+	// a length declared by the input is trusted for allocation only up to this many elements; beyond that the
+	// slice doubles as elements actually arrive (a larger chunk lets a few octets of nested list headers pin
+	// megabytes)
+	_listAllocChunk = 16
 )
 
 func listFixedTypedLenTag(tag byte) bool {
